@@ -6,16 +6,28 @@
    and stable-mint vaults whose debt asset is d.  [Inv01] is the C01 invariant (needed because the
    handlers read the books).  [cfg_ok], [user_op]: see Properties/C01.v.
 
-   PARTIAL with respect to the property text: liquidation seizure, auction settlement and ESM
-   redemption are not in the model, so "vaults awaiting auction" and "debt registered for
-   emergency redemption" are identically zero in the histories quantified over and the
-   inequality of the property holds here as the EQUALITY it promises for histories without
-   liquidations.
+   FULL LIFE CYCLE (Model/VaultLife.v): the histories quantified over by the theorems c02_life_* /
+   c02_backing_history / c02_exact_history also contain seizures (keeper message and sweep), dutch-auction
+   bids with arbitrary environment amounts, auction block ticks and the esm vault redemption.
+   [Inv02L c ext l]: for EVERY denom d
+       supply d - ext d = recorded d - over d   and   0 <= over d
+   where recorded d = AmountOut of open vaults and stable-mint vaults with debt asset d + the principal of the
+   locked vaults (vaults awaiting auction) + the debt registered in the esm AssetToAmount records, and [over]
+   is what settlements burnt beyond the principal they retired: a closing bid burns the seized vault's whole
+   debt (principal + accrued interest + closing fee), i.e. interest and closing fees of a liquidated vault are
+   destroyed, never minted.  Hence supply <= recorded always, and = in histories without liquidations.
+   The hypothesis [hist_ok] (Proofs/VaultLifeHist.v) is inherited from the books invariant [InvL] of C01 (the
+   handlers read the books): signers / liquidators / bidders are not the custody account and the environment
+   amounts of a bid respect the bounds of Properties/C10.v c10_bid_amounts.  ESM auction returns (TriggerEsm:
+   what was collected beyond the penalty is burnt, the auction's remaining target debt is re-recorded as the
+   returned vault's principal) are inside the histories quantified over.
+   The theorems named ..._messages_... are the earlier statements over histories of vault messages only.
 
    Finding C02-F1 (MsgCreateStableMint, zero draw-down fee: msg.Amount paid out instead of
    tokenOutAmount) was reproduced on the real keeper; it is repaired by fixes/C02-F1/patch.diff
    and the model follows the repaired code, so no known-finding class remains here. *)
-From Comdex Require Import Lib.Base Lib.DecArith Lib.Atomic Model.Vault Model.VaultExample Proofs.VaultProofs Proofs.VaultInv Proofs.VaultSupply.
+From Comdex Require Import Lib.Base Lib.DecArith Lib.Atomic Model.Vault Model.VaultExample Model.VaultLife Model.VaultLifeExample
+  Proofs.VaultProofs Proofs.VaultInv Proofs.VaultSupply Proofs.VaultLifeBase Proofs.VaultLifeInv Proofs.VaultLifeHist Proofs.VaultLifeSupply Proofs.VaultLifeWitness.
 
 Theorem c02_backing_init : forall c b sp t pr, Inv02 c sp (init b sp t pr).
 Proof. exact inv02_init. Qed.
@@ -28,19 +40,19 @@ Proof. exact run_inv02. Qed.
 Print Assumptions c02_backing_step.
 
 (* supply - external = recorded principal after EVERY finite history of vault messages *)
-Theorem c02_exact_history_partial : forall c ext ops s, cfg_ok c -> Forall user_op ops -> Inv01 c s -> Inv02 c ext s ->
+Theorem c02_messages_exact_history : forall c ext ops s, cfg_ok c -> Forall user_op ops -> Inv01 c s -> Inv02 c ext s ->
   Inv02 c ext (run_all c ops s).
 Proof. intros c ext ops s CK U I J. exact (proj2 (history_inv02 c ext ops CK U s I J)). Qed.
-Print Assumptions c02_exact_history_partial.
+Print Assumptions c02_messages_exact_history.
 
 (* the executable state predicate evaluated on the implementation's observations *)
-Theorem c02_predicate_holds_partial : forall c ops b sp t pr denoms, cfg_ok c -> Forall user_op ops ->
+Theorem c02_messages_predicate_holds : forall c ops b sp t pr denoms, cfg_ok c -> Forall user_op ops ->
   (forall d, b VAULT d = 0) -> holds_C02 c sp denoms (run_all c ops (init b sp t pr)) = true.
 Proof.
   intros c ops b sp t pr denoms CK U Hb. apply inv02_holds.
   exact (proj2 (history_inv02 c sp ops CK U _ (inv01_init c b sp t pr Hb) (inv02_init c b sp t pr))).
 Qed.
-Print Assumptions c02_predicate_holds_partial.
+Print Assumptions c02_messages_predicate_holds.
 
 (* the per-message laws, as the executable predicate [holds_C02_step] (Model/Vault.v) that the runner
    evaluates on the implementation's observation before and after every successful message:
@@ -139,3 +151,77 @@ Example c02_step_predicate_discriminates :
   let bad := set_bal s' (fun a x => if (a =? 3) && (x =? 4) then 2000000 else if (a =? VAULT) && (x =? 4) then 2 * P18 - 2000000 else bal s' a x) in
   holds_C02_step ex_cfg s o bad = false /\ holds_C01 ex_cfg ex_denoms bad = false.
 Proof. vm_compute. split; reflexivity. Qed.
+
+(* ====================== the full life cycle ====================== *)
+
+Theorem c02_life_backing_init : forall c b sp t pr, Inv02L c sp (lift (init b sp t pr)).
+Proof. exact inv02L_init. Qed.
+Print Assumptions c02_life_backing_init.
+
+(* one step of any kind *)
+Theorem c02_life_backing_step : forall c ext lc l o l', cfg_ok c -> lop_ok l o -> InvL c l -> Inv02L c ext l ->
+  lrun c lc l o = Ok l' -> Inv02L c ext l'.
+Proof. exact lrun_inv02. Qed.
+Print Assumptions c02_life_backing_step.
+
+(* the circulating supply never exceeds the recorded principal, after EVERY finite history *)
+Theorem c02_backing_history : forall c ext lc ops l, cfg_ok c -> hist_ok c lc l ops -> InvL c l -> Inv02L c ext l ->
+  forall d, sup (vs (lrun_all c lc ops l)) d - ext d <= recorded_d c (lrun_all c lc ops l) d.
+Proof.
+  intros c ext lc ops l CK HO I J d. destruct (history_inv02L c ext lc ops CK l HO I J) as [_ J']. destruct (J' d). lia.
+Qed.
+Print Assumptions c02_backing_history.
+
+(* ... and in histories without liquidations (no keeper seizure, no sweep; nothing seized before) it is
+   exactly equal *)
+Theorem c02_exact_history : forall c ext lc ops l, cfg_ok c -> Forall (fun o => is_liq o = false) ops ->
+  hist_ok c lc l ops -> InvL c l -> Inv02L c ext l -> NoSeized l ->
+  forall d, sup (vs (lrun_all c lc ops l)) d - ext d = recorded_d c (lrun_all c lc ops l) d.
+Proof. intros c ext lc ops l CK HN HO I J N. exact (history_exact c ext lc ops CK HN l HO I J N). Qed.
+Print Assumptions c02_exact_history.
+
+Theorem c02_predicate_holds : forall c lc ops b sp t pr denoms, cfg_ok c -> (forall d, b VAULT d = 0) ->
+  hist_ok c lc (lift (init b sp t pr)) ops ->
+  holds_C02_life c sp denoms (lrun_all c lc ops (lift (init b sp t pr))) = true.
+Proof.
+  intros c lc ops b sp t pr denoms CK Hb HO. apply inv02L_holds.
+  exact (proj2 (history_inv02L c sp lc ops CK _ HO (invL_init c b sp t pr Hb) (inv02L_init c b sp t pr))).
+Qed.
+Print Assumptions c02_predicate_holds.
+
+(* a settlement burns exactly the seized vault's debt (TargetDebt - penalty = principal + interest + closing
+   fee); a partial bid burns nothing; no other denom's supply and no custody balance moves: the executable
+   law [holds_C02_settle] the runner evaluates on the implementation's observation before / after each bid *)
+Theorem c02_settlement_burn : forall c lc l aid who paid recv closed exh topup l' denoms, who <> VAULT -> InvL c l ->
+  bid lc l aid who paid recv closed exh topup = Ok l' -> holds_C02_settle denoms l aid closed l' = true.
+Proof. exact bid_settle_law. Qed.
+Print Assumptions c02_settlement_burn.
+
+(* non-vacuity.  History A (seizure, partial bid, restart, closing bid): hypotheses met; while vault 1 awaits
+   settlement supply - external = 20000000 = open 10000000 + locked 10000000; after the settlement 10000000.
+   History B (closing fee 50000): the settlement burnt 10050000 against 10000000 principal retired, so supply
+   is 50000 BELOW the recorded principal (0): over = 50000.  History D (no liquidation; esm redemption moves
+   12000000 principal into the esm register): exactly equal *)
+Example c02_life_example_hyps : cfg_ok lx_cfg /\ InvL lx_cfg lx_init /\ Inv02L lx_cfg ex_sup lx_init /\ NoSeized lx_init /\
+  hist_ok lx_cfg lx_lc lx_init lx_ops_a /\ hist_ok lx_cfg lx_lc lx_init lx_ops_d /\ Forall (fun o => is_liq o = false) lx_ops_d.
+Proof.
+  refine (conj lx_cfg_ok (conj lx_init_inv (conj lx_init_inv02 (conj lx_init_noseized (conj lx_hist_a (conj lx_hist_d _)))))).
+  repeat constructor.
+Qed.
+Example c02_life_example_run :
+  let m := lrun_all lx_cfg lx_lc (firstn 5 lx_ops_a) lx_init in
+  let l := lrun_all lx_cfg lx_lc lx_ops_a lx_init in
+  let b := lrun_all lx_cfg lx_lc lx_ops_b lx_init in
+  let d := lrun_all lx_cfg lx_lc lx_ops_d lx_init in
+  sup (vs m) 2 - ex_sup 2 = 20000000 /\ debt_sum lx_cfg (vs m) 2 = 10000000 /\ lock_prin_d lx_cfg m 2 = 10000000 /\
+  sup (vs l) 2 - ex_sup 2 = 10000000 /\ recorded_d lx_cfg l 2 = 10000000 /\
+  sup (vs b) 2 - ex_sup 2 = -50000 /\ recorded_d lx_cfg b 2 = 0 /\ over b 2 = 50000 /\
+  lclasses lx_cfg lx_lc lx_init lx_ops_d = [0; 0; 0; 0; 0; 0; 0] /\ vaults (vs d) = [] /\ edebt d 2 = 12000000 /\
+  sup (vs d) 2 - ex_sup 2 = 12000000 /\ c02l_exact lx_cfg ex_sup d 2 = true /\
+  holds_C02_life lx_cfg ex_sup lx_denoms l = true /\ holds_C02_life lx_cfg ex_sup lx_denoms b = true.
+Proof. vm_compute. repeat split; reflexivity. Qed.
+(* the life predicate is not trivially true: it rejects 1 coin of supply above the recorded principal *)
+Example c02_life_predicate_discriminates :
+  let l := lrun_all lx_cfg lx_lc lx_ops_a lx_init in
+  holds_C02_life lx_cfg ex_sup lx_denoms (set_vs l (set_sup (vs l) (fun x => sup (vs l) x + 1))) = false.
+Proof. vm_compute. reflexivity. Qed.
